@@ -5,15 +5,39 @@ V = '/verif'
 TRUST = ('rustc-nightly MIR of the working tree describes what stable builds; our MIR reader/executor (validated on every '
          'run by replaying solver models on the real crate); z3 (cvc5 cross-check in the thorough tier); environment models '
          'of DashMap/SegQueue/atomics/clock/uuid (DESIGN.md 2.3); the oracle written from the property text')
+SEQ = 'bounded symbolic execution of the crate MIR -> SMT (z3, integer encoding of u64 arithmetic): one operation from an arbitrary invariant-satisfying level state (inductive step, match loop cut at its head) plus depth-bounded histories; solver models replayed on the real crate'
+CONC = 'symbolic execution of the crate MIR for two threads under a symbolic well-nested schedule (sequentialisation, one SMT query set per placement of thread B between two shared-memory steps of thread A); counterexample schedules replayed step by step on the hooked real crate'
 CHECKS = {
- 'C01': dict(technique='bounded symbolic execution of the crate MIR -> SMT (z3, integer encoding of u64 arithmetic); inductive invariant with loop cut + depth-bounded histories; models replayed on the real crate',
-             text='Solver decides, for every 64-bit parameter value: (a) one arbitrary operation from an ARBITRARY level state with <=N resting orders and <=K tickets preserves "aggregates == sums over resting orders" (match_order cut at its loop head, so any number of iterations and any history length are covered by induction); (b) every history of depth D from an empty level keeps the equality after every step. Bounded by N,K,D stated in the evidence; not a proof.',
-             ref='6.1'),
- 'C05': dict(technique='symbolic execution of match_against by two encoders (own MIR->SMT and Kani/CBMC) against the rule set of the statement, full 64-bit',
-             text='match_against is loop-free: both engines decide every rule of the statement for every order of every variant and every incoming quantity at full width; the only bound is the machine word. Vacuity witnesses are replayed on the real crate.',
-             ref='6.5', engine='E-MIR+E-KANI'),
+ 'C01': dict(technique=SEQ, ref='6.1',
+             text='Solver decides, for every 64-bit parameter value: (a) one arbitrary operation (add, re-add, match entry, an arbitrary later loop iteration, cancel, the three amend kinds, price move) from an ARBITRARY level state with <=N resting orders and <=K tickets preserves "aggregates == sums over the orders the level owns" - match_order is cut at its loop head, so any number of iterations and any history length follow by induction; (b) every history of depth D from an empty level keeps the equality after every step, and no overflow panic is reachable. Bounded by N,K,D (evidence); not a proof. Rebuild-from-snapshot paths are checked under C10.'),
+ 'C02': dict(technique=SEQ + '; add_transaction also by Kani/CBMC', ref='6.2', engine='E-MIR+E-KANI',
+             text='Every match request in every history of depth D, and one match (<=L iterations) from an arbitrary level state, is checked against: executed+remaining==requested, is_complete, every transaction (positive, level price, taker id, maker resting, opposite side), filled ids == makers that traded and left, per-order fills+remainder <= held quantity (inductive form of the lifetime bound), transaction ids pairwise distinct (UUIDv5 injectivity assumed). add_transaction decided by two engines.'),
+ 'C03': dict(technique=CONC, ref='6.3',
+             text='Two threads x one operation (add/match/cancel/quantity-amend) on an arbitrary level state; for every well-nested interleaving the solver decides aggregates==sums at quiescence and per-order executed+cancelled+resting (<)= supplied. Crossing overlaps, >2 threads, >1 op per thread are outside the bound.'),
+ 'C04': dict(technique=SEQ + '; ghost arrival ranks and a link invariant to the ticket queue; queue-position violations confirmed by a draining match on the real crate', ref='6.4',
+             text='Time priority as an inductive invariant J (earlier arrival rank => reached first by the ticket queue): every operation from an arbitrary state satisfying J must trade against the earliest displaying order and re-establish J for the ranks the statement prescribes. Two recorded known findings (partial fill re-queued at tail; stale ticket keeps old position) are reported as KNOWN-FINDING; the tolerant obligations (statement minus those two deviations) must be unsat.'),
+ 'C05': dict(technique='symbolic execution of match_against by two encoders (own MIR->SMT and Kani/CBMC) against the rule set of the statement, full 64-bit', ref='6.5', engine='E-MIR+E-KANI',
+             text='match_against is loop-free: both engines decide every rule of the statement for every order of every variant and every incoming quantity at full width; the only bound is the machine word. Vacuity witnesses are replayed on the real crate.'),
+ 'C06': dict(technique=SEQ + '; termination by a solver-checked progress lemma on one loop iteration', ref='6.6',
+             text='Termination: the solver decides that ONE iteration of match_order from an arbitrary loop-head state strictly decreases the well-founded measure (remaining quantity, level hidden quantity, reachable tickets); OrderQueue::pop unwinding asserted. Exhaustion post-conditions decided on one match (<=L iterations) from an arbitrary state and on histories of depth D, quantities from 0.'),
+ 'C07': dict(technique=SEQ + '; read-only entry points executed from their MIR and compared by structural state equality', ref='6.7',
+             text='All five update kinds (equal/different price, present/absent id) from an arbitrary level state and inside histories of depth D are compared with the statement (returned order, removed exactly it, others and identity fields untouched, new display for Standard/PostOnly/Iceberg, not-found/rejection change nothing); 14 read-only entry points must leave the complete level state equal.'),
+ 'C08': dict(technique=CONC, ref='6.8',
+             text='Level part only: at quiescence of every well-nested two-thread schedule every resting order is covered by an available ticket (so matching reaches it), aggregates equal sums, nothing handed out twice. The bare-OrderQueue programs of the quantifier are exercised only through the level operations.'),
+ 'C12': dict(technique=CONC + '; monitor asserted before every shared-memory step', ref='6.12',
+             text='A reader stopped before every shared-memory step of either writer (and at quiescence) must see visible, hidden <= total ever supplied and count <= orders ever added, for every well-nested two-writer schedule from an arbitrary level state.'),
+ 'C13': dict(technique=CONC, ref='6.13',
+             text='Cancel / quantity-amend acknowledgements in two-thread programs: success means out of the book and nothing of the order executed or handed out twice; not-found although the order rests before and after is the recorded known finding C13/not-found-while-held (printed as KNOWN-FINDING after replay under the schedule).'),
+ 'C14': dict(technique=CONC + '; UUIDv5 as an uninterpreted injective function', ref='6.14',
+             text='2 threads x N calls of UuidGenerator::next from an arbitrary counter value and namespace: ids pairwise different for every well-nested schedule; two generators with equal namespace issue equal sequences (4 calls).'),
+ 'C15': dict(technique=SEQ + '; concurrent half: ' + CONC, ref='6.15',
+             text='Per operation the four counters named by the statement move by exactly the events of that operation, from arbitrary counter values (any history length) and in histories of depth D; concurrent half: two-thread programs, counters vs events at quiescence for every well-nested schedule.'),
 }
-NA_REASON = {}
+NA_REASON = {
+ 'C16': 'text codecs are almost entirely library string machinery (core::fmt, str::split/find via memchr, to_uppercase tables, HashMap, uuid/ulid codecs): CBMC blows up on it (Side round trip: 1.1M steps, no verdict in 600 s) and a MIR-level encoder would model it instead of executing it (DESIGN.md 6.16)',
+ 'C17': 'serde_json serializer/deserializer (itoa/float fallback, escaping, recursive descent) is out of reach for both engines; the structural halves that are reachable are claimed under C10 (DESIGN.md 6.17)',
+ 'C18': 'quantifies over every Unicode string fed to ~15 parsers built on split/HashMap/parse/serde; Kani did not finish MatchResult::from_str with 2 symbolic bytes in 3000 s; a byte-array model could cover one hand-written scanner out of fifteen, which would not decide the property (DESIGN.md 6.18)',
+}
 props = [json.loads(l) for l in open(os.path.join(V, 'properties.jsonl'))]
 man = {
  'version': 1,
@@ -22,7 +46,7 @@ man = {
            'baseline_off_cmd': 'cd /repo && cargo test --workspace --no-fail-fast --offline', 'source_commits': ['f9994c1'], 'add_only': True},
  'engines': [
   {'name': 'E-MIR', 'path': 'emir/', 'serves_properties': sorted(k for k in CHECKS), 'kind_free_text': 'own bounded symbolic executor over rustc MIR (merge mode, loop unrolling / loop cuts) -> SMT-LIB2 -> z3/cvc5; native replay driver native/'},
-  {'name': 'E-KANI', 'path': 'kani/', 'serves_properties': ['C05'], 'kind_free_text': 'Kani 0.68 / CBMC 6.11 proof harnesses over the compiled crate'},
+  {'name': 'E-KANI', 'path': 'kani/', 'serves_properties': ['C02', 'C05'], 'kind_free_text': 'Kani 0.68 / CBMC 6.11 proof harnesses over the compiled crate'},
  ],
  'checks': [],
  'notes': 'see DESIGN.md; known_findings.json lists recorded and repaired defects',
